@@ -55,6 +55,10 @@ def no_separator(p, t) -> bool:
     if k == "attr":
         if t[2] in ("asc_mhl_path", "file_path", "path", "root_path"):
             return False
+        if len(t) > 3 and t[3]:
+            ft = p.field_type(t[3], t[2])
+            if ft and ft[0] in ("int", "bool", "float"):
+                return True  # a number has no separator, wherever the object came from
         return no_separator(p, t[1])
     if k == "elem":
         return no_separator(p, t[1])
